@@ -19,7 +19,10 @@
    cf v / ccn x / ccv v / cdr d count EvFinal v / EvConstruct x _ _ / EvConstruct _ v _ / EvDelRun d. *)
 From GL Require Import Conc.Cache Conc.CacheLemmas Conc.CacheInv Conc.CacheProofs Conc.CacheTheorems.
 From GL Require Import Conc.CacheLts Conc.CacheLtsProofs Conc.CacheLtsInv Conc.CacheLtsClose.
-From Coq Require Import Lia.
+From GL Require Import Conc.CacheTable Conc.CacheTableLemmas Conc.CacheTableInv Conc.CacheTableProofs.
+From GL Require Import Conc.CacheLocks Conc.CacheLocksProofs.
+From GL Require Import Gen.InstC17 Gen.InstC17Ok.
+From Coq Require Import Lia Permutation.
 
 (* ================================================================ Part A: sequential semantics *)
 
@@ -320,3 +323,237 @@ Print Assumptions C17_close_race_repaired.
    code as it was; reproduced by the same experiment and repaired by the same commit, which makes
    callFinalizer take the value and the delFuncs exactly once under the node lock) is below the LTS's
    granularity (callFinalizer is one action). *)
+
+(* ================================================================ Part C: the node table
+
+   Conc/CacheTable.v is a sequential executable model of the resizable hash table that Parts A and B
+   abstract to a finite map: chain of heads (newest first), buckets uninitialised / initialised / frozen,
+   lazy split (grow) or merge (shrink) of predecessor buckets by mHead.initBucket, the grow / shrink
+   triggers of mBucket.get / delete with the resizeInProgress CAS, enumeration through the newest head.
+   One operation at a time; between operations ANY of the background steps of `go nh.initBuckets()`
+   (TInit d i: initBucket(i) of the head at depth d; TFinish d: predecessor = nil) may happen, in any order.
+   All theorems hold for EVERY hash function [hashf] and every parameter triple with a power-of-two
+   initial size ([cache_tp_ok]: the constants read from cache.go qualify).
+   [live t] is the list of all nodes of the table: for every bucket of the newest head its own slice if
+   it is initialised, otherwise what initBucket would compute from the predecessors. *)
+
+(* C1. for every sequence of get-or-create / delete / enumerate operations interleaved with arbitrary resize
+       steps the results are those of a finite map keyed by (ns,key) ([mstep]: Cache.v's find / sorted
+       insert / removal; an enumeration returns the same nodes up to order; a background step returns
+       nothing); no Go panic of the modelled code, no index out of range, the fuel of initBucket's
+       recursion suffices, and no operation ever meets a frozen bucket (no retry of the getBucket loop
+       in a sequential run); the nodes of the table are those of the map (none lost, none kept) and
+       statNodes counts them. *)
+Theorem C17_table_refines_map : forall hashf P, (exists e, tp_init P = 2 ^ e) -> forall ops,
+  Forall2 res_match (snd (trun hashf P (tinit P) ops)) (snd (mrun hashf minit ops)) /\
+  Forall res_ok (snd (trun hashf P (tinit P) ops)) /\
+  Permutation (live (fst (trun hashf P (tinit P) ops))) (km_nodes (fst (mrun hashf minit ops))) /\
+  t_nodes (fst (trun hashf P (tinit P) ops)) = Z.of_nat (length (km_nodes (fst (mrun hashf minit ops)))) /\
+  t_panic (fst (trun hashf P (tinit P) ops)) = false.
+Proof. exact table_refines_map. Qed.
+Print Assumptions C17_table_refines_map.
+
+(* C2. no node is duplicated (object identities and keys pairwise different, identities never reused) and
+       none is reachable from two buckets *)
+Theorem C17_table_nodes_unique : forall hashf P, (exists e, tp_init P = 2 ^ e) -> forall t, treach hashf P t ->
+  NoDup (map tn_id (live t)) /\ NoDup (map tkey (live t)) /\
+  (forall x, In x (live t) -> tn_id x < t_next t) /\
+  forall h rest, t_heads t = h :: rest ->
+    forall i j x, i < hlen h -> j < hlen h -> In x (content (t_heads t) i) -> In x (content (t_heads t) j) -> i = j.
+Proof. exact table_nodes_unique. Qed.
+Print Assumptions C17_table_nodes_unique.
+
+(* C3. once a bucket of the CURRENT head is initialised it is sorted by (ns,key), holds only nodes whose
+       hash selects it under the current mask, and holds EVERY node of the table whose hash selects it *)
+Theorem C17_table_placement : forall hashf P, (exists e, tp_init P = 2 ^ e) -> forall t, treach hashf P t ->
+  forall h rest, t_heads t = h :: rest -> forall i, i < hlen h -> b_state (bget h i) <> BUninit ->
+    ssorted (b_nodes (bget h i)) /\
+    (forall x, In x (b_nodes (bget h i)) ->
+       N.land (tn_hash x) (h_mask h) = i /\ tn_hash x = hashf (tn_ns x) (tn_key x) /\ In x (live t)) /\
+    (forall x, In x (live t) -> N.land (tn_hash x) (h_mask h) = i -> In x (b_nodes (bget h i))).
+Proof. exact table_placement. Qed.
+Print Assumptions C17_table_placement.
+
+(* C4. what any step (operation or background step) does to the heads: at most one new head is put in front
+       (k = 1, exactly when GrowCount + ShrinkCount increases by one); every head that was reachable keeps
+       its identity, and every FROZEN bucket of it is left exactly as it was (state and slice) *)
+Theorem C17_table_frozen_never_modified : forall hashf P, (exists e, tp_init P = 2 ^ e) ->
+  forall t o, treach hashf P t -> step_struct t (fst (tstep hashf P t o)).
+Proof. exact table_step_struct. Qed.
+Print Assumptions C17_table_frozen_never_modified.
+
+(* C5. resizeInProgress: in every reachable table the newest head has the flag clear and no frozen bucket,
+       every older head of the chain has it set — so a head starts at most one resize, the chain is
+       linear, and its heads are the last resizes (the head at depth d was created by resize number
+       GrowCount + ShrinkCount - d); neighbouring heads differ by a factor two.
+       NOT true, and not claimed: "no second resize while one is in progress".  resizeInProgress belongs
+       to the head that is being REPLACED; the new head starts with a clear flag, so its own threshold can
+       fire while its buckets are still being initialised from the predecessor: chains of three and
+       more heads are reachable (C17_table_nonvacuous below; observed on the implementation, up to four). *)
+Theorem C17_table_resize_flags : forall hashf P, (exists e, tp_init P = 2 ^ e) -> forall t, treach hashf P t ->
+  top_ok (t_heads t) /\ ids_ok (t_heads t) (t_ngrow t + t_nshrink t) /\
+  (forall h rest, t_heads t = h :: rest -> forall p r, rest = p :: r -> h_pred h = true /\ link h p).
+Proof. exact table_resize_flags. Qed.
+Print Assumptions C17_table_resize_flags.
+
+(* C6. enumeration through the newest head (every bucket is initialised first) visits every node exactly
+       once: the result IS [live t] (bucket order), without repetition; by namespace: exactly the nodes
+       of that namespace *)
+Theorem C17_table_enum_exact : forall hashf P, (exists e, tp_init P = 2 ^ e) -> forall t, treach hashf P t ->
+  snd (tstep hashf P t TEnum) = REnum (map tn_id (live t)) /\ NoDup (map tn_id (live t)) /\
+  forall ns, snd (tstep hashf P t (TEnumNS ns)) = REnum (map tn_id (filter (fun x => tn_ns x =? ns) (live t))).
+Proof. exact table_enum_exact. Qed.
+Print Assumptions C17_table_enum_exact.
+
+(* C7. mHead.initBucket changes the representation only: for any chain satisfying the invariant and any
+       fuel >= its length, no panic, the invariant is kept, every head keeps its fields, a frozen bucket
+       is untouched and an initialised one keeps its slice ([head_le], [evolves]), the logical contents
+       of every bucket are unchanged, the requested bucket is initialised and no bucket of the first
+       head becomes frozen *)
+Theorem C17_init_bucket_pure : forall hashf fuel h rest i,
+  (length (h :: rest) <= fuel)%nat -> chain_ok hashf (h :: rest) -> i < hlen h ->
+  exists h' rest', init_bucket fuel (h :: rest) i = (h' :: rest', false) /\
+    chain_ok hashf (h' :: rest') /\ head_le h h' /\ evolves rest rest' /\
+    (forall i', i' < hlen h -> content (h' :: rest') i' = content (h :: rest) i') /\
+    b_state (bget h' i) <> BUninit /\
+    (forall i', b_state (bget h' i') = BFrozen -> b_state (bget h i') = BFrozen).
+Proof. exact init_ok. Qed.
+Print Assumptions C17_init_bucket_pure.
+
+(* C8. hash & mask arithmetic: under the doubled mask a node of bucket j lands in j or j + len; under the
+       halved mask the nodes of buckets i and i + len/2 land in i *)
+Theorem C17_mask_split : forall x e,
+  N.land x (N.ones (e + 1)) = N.land x (N.ones e) \/ N.land x (N.ones (e + 1)) = N.land x (N.ones e) + 2 ^ e.
+Proof. exact land_refine. Qed.
+Print Assumptions C17_mask_split.
+
+Theorem C17_mask_merge : forall x e, N.land x (N.ones e) = N.land (N.land x (N.ones (e + 1))) (N.ones e).
+Proof. exact land_coarsen. Qed.
+Print Assumptions C17_mask_merge.
+
+(* the constants of cache.go satisfy the side condition *)
+Theorem C17_table_params_ok : exists e, tp_init cache_tp = 2 ^ e.
+Proof. exact cache_tp_ok. Qed.
+Print Assumptions C17_table_params_ok.
+
+(* ---- non-vacuity: 2 initial buckets, thresholds 1 and 2, identity hash.  Four insertions start two
+   grows, the second while NO bucket of the first new head has been initialised by the background
+   goroutine (chain of three heads, two of them with resizeInProgress set); a lookup then initialises
+   bucket 0 of the newest head through both predecessors (freezing one bucket in each); enumeration
+   forces the rest; deletions start two shrinks (chain of four heads); all results are the map's. *)
+Definition tbl_hid (ns key : N) : N := key.
+Definition tbl_P0 : tparams := mkTP 2 1 2.
+Definition tbl_ops0 : list top :=
+  [TGet 0 0 false; TGet 0 1 false; TGet 0 2 false; TGet 0 3 false; TGet 0 0 true; TEnum; TInit 1 1; TFinish 1; TEnumNS 0;
+   TDel 0 3 true; TDel 0 2 true; TDel 0 1 true; TDel 0 1 false; TGet 0 1 true; TFinish 0; TEnum].
+
+Example C17_table_nonvacuous :
+  let t4 := fst (trun tbl_hid tbl_P0 (tinit tbl_P0) (firstn 4 tbl_ops0)) in
+  let t5 := fst (trun tbl_hid tbl_P0 (tinit tbl_P0) (firstn 5 tbl_ops0)) in
+  let t12 := fst (trun tbl_hid tbl_P0 (tinit tbl_P0) (firstn 12 tbl_ops0)) in
+  treach tbl_hid tbl_P0 t5 /\
+  map (fun h => (h_mask h, h_resizing h)) (t_heads t4) = [(7, false); (3, true); (1, true)] /\
+  map (fun h => map (fun b => bcode (b_state b)) (h_buckets h)) (t_heads t5) =
+    [[1; 0; 0; 0; 0; 0; 0; 0]; [2; 0; 1; 1]; [2; 2]] /\
+  map tn_id (live t4) = [0; 1; 2; 3] /\ length (t_heads t12) = 4%nat /\ (t_ngrow t12, t_nshrink t12) = (2, 2) /\
+  snd (trun tbl_hid tbl_P0 (tinit tbl_P0) tbl_ops0) =
+    [RNode 0 true; RNode 1 true; RNode 2 true; RNode 3 true; RNode 0 false; REnum [0; 1; 2; 3]; RBg true; RBg true;
+     REnum [0; 1; 2; 3]; RDel true; RDel true; RDel true; RDel false; RNone; RBg false; REnum [0]].
+Proof. cbv zeta. split; [exists (firstn 5 tbl_ops0); reflexivity|]. vm_compute. repeat split; reflexivity. Qed.
+
+(* murmur32 as executed by the model, on the constants read from cache.go (compared with the Go
+   function on every run by the correspondence check) *)
+Example C17_murmur32_values :
+  cache_hash 0 0 = 2515361066 /\ cache_hash 1 2 = 2553770548 /\
+  cache_hash 18446744073709551615 1311768467463790320 = 518841862.
+Proof. vm_compute. repeat split; reflexivity. Qed.
+
+(* ================================================================ Part D: Close and the locks
+
+   Conc/CacheLocks.v puts sync.RWMutex's blocking rules (a writer that has called Lock blocks every later
+   RLock; Lock waits for the readers inside) on top of the interleaved semantics of Part B, for the lock
+   protocol of the code as found (one lock, re-entered by Handle.Release -> unRefExternal inside
+   Get/Delete/Evict/EvictNS/EvictAll) and for the repaired one (repo commit "fix: cache: Close must not
+   deadlock with an operation whose cacher step releases a handle": the operations hold opMu,
+   unRefExternal takes mu, Close takes opMu and then mu). *)
+
+(* D1. the code as found deadlocks (known finding cache-close-rlock-reentry / cache-close-deadlock-recursive-rlock,
+       reproduced on the implementation: 3 deadlocks in 46-131 trials): after the 11-action schedule
+       [deadlock_trace] goroutine 1 is inside Get holding the read lock with the release of an evicted lru
+       handle next, goroutine 2 has called Close; the nested RLock and Close's Lock are both disabled and
+       stay disabled after EVERY continuation by any goroutines *)
+Theorem C17_close_deadlock_as_found :
+  exists K, krun false (kinit true 1) deadlock_trace = Some K /\ kreach false K /\ dead12 K /\
+    forall tr K', krun false K tr = Some K' ->
+      dead12 K' /\ kstep false K' (KAct (AStep 1)) = None /\
+      forall f, kstep false K' (KAct (AStart 2 (OClose f))) = None.
+Proof. exact close_deadlock_old. Qed.
+Print Assumptions C17_close_deadlock_as_found.
+
+(* D2. the repaired protocol has no such wait: in EVERY reachable state (any number of goroutines, any
+       interleaving, force-close included) a Close that holds opMu finds nobody inside an operation and can
+       run its flag section at once; otherwise every goroutine inside an operation or a release can take its
+       next step (the nested Handle.Release included); an announced Close gets opMu as soon as nobody is
+       inside an operation.  Every wait is for a goroutine that can move: no cycle. *)
+Theorem C17_close_repaired_no_wait_cycle : forall K, kreach true K ->
+  (forall w, k_w K = Some (w, true) ->
+     rlocked_other w (l_thr (k_L K)) = false /\ forall f, kstep true K (KAct (AStart w (OClose f))) <> None) /\
+  ((forall w, k_w K <> Some (w, true)) ->
+     forall t, t_code (get_thr t (l_thr (k_L K))) <> [] -> kstep true K (KAct (AStep t)) <> None) /\
+  (forall w, k_w K = Some (w, false) -> rlocked_other w (l_thr (k_L K)) = false -> kstep true K (KAcq w) <> None).
+Proof. exact repaired_no_wait_cycle. Qed.
+Print Assumptions C17_close_repaired_no_wait_cycle.
+
+(* D3. the lock layer only restricts the interleaved semantics, for either protocol: its reachable states
+       are states of Part B, so the invariants proved there hold for the repaired protocol — restated for
+       its reachable states (all operations and Close(false)) *)
+Theorem C17_close_repaired_refines_lts : forall two K, kreach_c two K -> lreach_c (k_L K).
+Proof. exact kreach_c_lreach_c. Qed.
+Print Assumptions C17_close_repaired_refines_lts.
+
+Theorem C17_close_repaired_one_live_value_partial : forall K, kreach_c true K ->
+  forall h1 h2 n1 n2, handle_node (l_g (k_L K)) h1 = Some n1 -> handle_node (l_g (k_L K)) h2 = Some n2 -> keyof n1 = keyof n2 ->
+    n1 = n2 /\
+    exists v, handle_value (l_g (k_L K)) h1 = Some v /\ handle_value (l_g (k_L K)) h2 = Some v /\
+              ccn (n_id n1) (s_log (l_g (k_L K))) = 1%nat /\ ccv v (s_log (l_g (k_L K))) = 1%nat /\ cf v (s_log (l_g (k_L K))) = 0%nat.
+Proof. exact one_live_value_k. Qed.
+Print Assumptions C17_close_repaired_one_live_value_partial.
+
+Theorem C17_close_repaired_finalise_once_after_release_partial : forall K, kreach_c true K ->
+  (forall v, (cf v (s_log (l_g (k_L K))) <= 1)%nat) /\
+  (forall x v sz, In (EvConstruct x v sz) (s_log (l_g (k_L K))) -> (1 <= cf v (s_log (l_g (k_L K))))%nat ->
+     handles_on x (s_handles (l_g (k_L K))) = 0%nat) /\
+  (forall x v sz, In (EvConstruct x v sz) (s_log (l_g (k_L K))) ->
+     cf v (s_log (l_g (k_L K))) = 1%nat \/
+     (cf v (s_log (l_g (k_L K))) = 0%nat /\ exists n, In n (s_nodes (l_g (k_L K))) /\ n_id n = x /\ n_val n = Some v)).
+Proof. exact finalise_once_not_early_k. Qed.
+Print Assumptions C17_close_repaired_finalise_once_after_release_partial.
+
+Theorem C17_close_repaired_delfunc_once_not_early_partial : forall K, kreach_c true K ->
+  (forall d, (cdr d (s_log (l_g (k_L K))) <= 1)%nat) /\
+  (forall d x, In (EvDelReg d x) (s_log (l_g (k_L K))) -> (1 <= cdr d (s_log (l_g (k_L K))))%nat ->
+     handles_on x (s_handles (l_g (k_L K))) = 0%nat) /\
+  (forall d, d < s_next_did (l_g (k_L K)) ->
+     cdr d (s_log (l_g (k_L K))) = 1%nat \/
+     (cdr d (s_log (l_g (k_L K))) = 0%nat /\ exists n, In n (s_nodes (l_g (k_L K))) /\ In d (n_dels n))).
+Proof. exact delfunc_once_not_early_k. Qed.
+Print Assumptions C17_close_repaired_delfunc_once_not_early_partial.
+
+Theorem C17_close_repaired_capacity_census_partial : forall K, kreach_c true K ->
+  s_used (l_g (k_L K)) = used_sum (s_nodes (l_g (k_L K))) /\ (s_used (l_g (k_L K)) <= Z.of_N (s_cap (l_g (k_L K))))%Z /\
+  s_panic (l_g (k_L K)) = false /\
+  forall n, In n (s_nodes (l_g (k_L K))) ->
+    n_ref n = (Z.of_nat (handles_on (n_id n) (s_handles (l_g (k_L K)))) + (if resident n then 1 else 0)
+               + pend_ref (n_id n) (l_thr (k_L K)))%Z /\ (0 <= n_ref n)%Z.
+Proof. exact capacity_census_k. Qed.
+Print Assumptions C17_close_repaired_capacity_census_partial.
+
+(* non-vacuity of D2/D3: the deadlock schedule continued under the repaired protocol — goroutine 1's nested
+   release runs although Close is announced, its Get returns, Close acquires opMu then mu, closes and evicts;
+   the last handle is released; everybody idle, both values finalised exactly once *)
+Theorem C17_close_deadlock_repaired :
+  exists K, krun true (kinit true 1) repaired_trace = Some K /\
+    k_w K = None /\ all_idle (l_thr (k_L K)) /\ s_closed (l_g (k_L K)) = true /\ s_handles (l_g (k_L K)) = [] /\
+    cf 0 (s_log (l_g (k_L K))) = 1%nat /\ cf 1 (s_log (l_g (k_L K))) = 1%nat.
+Proof. exact close_deadlock_repaired. Qed.
+Print Assumptions C17_close_deadlock_repaired.
